@@ -1,5 +1,5 @@
 // Harness over the batch L2 lookup lifted from src/dev/read.rs::get_l2_entries; child of `crate::dev`.
-// @module-needs env header seg:GE
+// @module-needs env header seg:GE seg:GS
 #![allow(dead_code, unused_imports)]
 use super::*;
 use crate::dev::verif_env::*;
@@ -122,3 +122,69 @@ ge_lookup!(c01_l2_entries_lookup, 3usize, 63u64, shape_blocks, entries_distinct)
 // @funcs Qcow2Dev::get_l2_entries (whole body) SplitGuestOffset::{l2_slice_key,l2_slice_index} L2Table::get_entry Qcow2Info::{cluster_round_up,cluster_round_down}
 // @stub alloc::fmt::format -> String::new()
 ge_lookup!(c01_l2_entries_lookup_wide, 3usize, 62u64, shape_blocks, entries_distinct);
+
+// @harness c01_l2_entry_lookup_single
+// @props C01 C09
+// @tier quick
+// @cost 20
+// @timeout 900
+// @needs GS
+// @desc whole get_l2_entry (lifted; used by the write path, discard and get_mapping) over two adjacent real L2 slices, cached or not: the entry returned for ANY byte offset inside the window is the entry stored at the slot the spec's l2_index arithmetic gives (slice = key of the offset, slot = index inside that slice), whichever of the two slices holds it and whether it comes from the cache or has to be loaded; with an empty L1 entry and no cached slice the cluster is unallocated (entry 0) and nothing is loaded
+// @bounds 64 KiB clusters, 512-byte L2 slices (64 entries), two adjacent slices with arbitrary entries in the last 4 slots of the first and the first 4 of the second; offsets anywhere in those 8 clusters; each slice cached or not; L1 entry empty or not
+// @assume get_l1_entry / get_l2_slice_slow by contract (the latter's body: c02_l2_slice_load)
+// @funcs Qcow2Dev::get_l2_entry SplitGuestOffset::{l2_slice_key,l2_slice_index} L2Table::get_entry
+// @stub alloc::fmt::format -> String::new()
+#[kani::proof]
+#[kani::unwind(6)]
+#[kani::stub(std::fmt::format, fmt_stub2)]
+fn c01_l2_entry_lookup_single() {
+    let cb = 16u32;
+    let info = mk_info(cb, 4, 1u64 << 40, 9, Some((9, 1024)), Some((10, 2048)), false, false, false);
+    let mut env = KEnv::new(info);
+    let cs = 1u64 << cb;
+    let base: usize = 5;
+    let (a, b, w): ([u64; 4], [u64; 4], [u64; 4]) = entries_any();
+    let mut s0 = L2Table::new(Some(0x10000), 512, cb as usize);
+    let mut s1 = L2Table::new(Some(0x10200), 512, cb as usize);
+    let mut i = 0;
+    while i < 4 {
+        s0.set(60 + i, L2Entry(a[i]));
+        s0.set(i, L2Entry(w[i]));
+        s1.set(i, L2Entry(b[i]));
+        i += 1;
+    }
+    let cached: [bool; 2] = [kani::any(), kani::any()];
+    env.l2cache = KCache { base, s: [Some(KHandle::new(s0)), Some(KHandle::new(s1))], cached };
+    let l1_empty: bool = kani::any();
+    env.l1_entry = unsafe { core::mem::transmute::<u64, L1Entry>(if l1_empty { 0 } else { 0x8000_0000_0005_0000u64 }) };
+    // any byte offset in the 8 clusters around the slice boundary
+    let idx: u64 = kani::any();
+    kani::assume(idx >= 60 && idx < 68);
+    let in_off: u64 = kani::any();
+    kani::assume(in_off < cs);
+    let off = ((((base as u64) << 6) + idx) << cb) + in_off;
+
+    let r = env.seg_gs(off);
+
+    // the spec's view: which slice, which slot
+    let key = ((off >> cb) >> 6) as usize;
+    let slot = (spec::l2_index(off, cb) & 63) as usize;
+    assert!(key == base + (idx >= 64) as usize && slot == (idx & 63) as usize);
+    let want = if idx < 64 { a[(idx - 60) as usize] } else { b[(idx - 64) as usize] };
+    let in_cache = cached[(idx >= 64) as usize];
+    match &r {
+        Ok(e) => {
+            if !in_cache && l1_empty {
+                assert!(e.0 == 0);
+            } else {
+                assert!(e.0 == want);
+            }
+        }
+        Err(_) => assert!(false),
+    }
+    kani::cover!(idx >= 64 && !in_cache && !l1_empty && want != 0);
+    kani::cover!(idx < 64 && in_cache && want != 0);
+    kani::cover!(!in_cache && l1_empty);
+    core::mem::forget(r);
+    core::mem::forget(env);
+}
